@@ -2310,7 +2310,7 @@ vbi_decode_teletext(vbi_decoder *vbi, uint8_t *buffer)
 		cvtp->pgno = pgno;
 		vbi->vt.current = rvtp;
 
-		subpage = vbi_unham16p (p + 2) + vbi_unham16p (p + 4) * 256;
+		subpage = vbi_unham16p (p + 2) | (vbi_unham16p (p + 4) * 256);
 		flags = vbi_unham16p (p + 6);
 
 		if (page == 0xFF || (subpage | flags) < 0) {
